@@ -129,6 +129,18 @@ impl<U> VMapped<U> {
     pub fn collect(self) -> (r: Vec<U>) ensures r.v@ == self.r@ { unimplemented!() }
 }
 
+/// R-ppoint target: `s.partition_point(|x| *x < k)` on a sorted vector is the number of elements < k
+pub trait VxPartitionPoint { fn vx_partition_point_lt(&self, k: usize) -> usize; }
+impl VxPartitionPoint for Vec<usize> {
+    #[verifier::external_body]
+    fn vx_partition_point_lt(&self, k: usize) -> (r: usize)
+        ensures
+            (forall|i: int, j: int| 0 <= i < j < self.v@.len() ==> self.v@[i] <= self.v@[j]) ==>
+                r <= self.v@.len() && (forall|i: int| 0 <= i < self.v@.len() ==> ((#[trigger] self.v@[i]) < k) == (i < r))
+                && (r > 0 ==> self.v@[r - 1] < k) && (r < self.v@.len() ==> self.v@[r as int] >= k),
+    { unimplemented!() }
+}
+
 // @@INCLUDE stdx@@
 
 // @@EXTRACTED@@
